@@ -8,6 +8,9 @@ and one JSON object per output line with one entry per requested item.
 values: null | true/false | <int> | {"f": repr} | "str" | [..] | {"t":[..]} | {"s":[..]} | {"d":[[k,v],..]} | {"e":[cls,name]}
 types : "str"|"int"|"float"|"bool"|"none"|"any" | {"u":[..]} | {"l":t} | {"d":["str"|"int",t]} | {"t":[..]} | {"tv":t}
         | {"s":t} | {"lit":[..]} | {"e":[cls,[names]]}
+types also: {"rn":["int"|"float"|"str", k]} restricted type k, {"reg": k} registered type k; values also {"o":[k, repr]}.
+oracle also: "numstr"/"baseof": [[base, value, value | null]], "rnumok": [[k, value, true|false]],
+             "regdeser"/"regser": [[k, value, value | null]] (tags as strings; null = the function raises)
 oracle: {"yaml":[[s, value | {"x":1}]], "any":[[s, value | {"x":1}]], "bigflt":[[i, repr | null (= OverflowError)]], "intof":[[s, i | null]]}
         ({"x":1} = the loader raised).  A string that the model could look up but that has no table entry is
         reported as {"miss": s} instead of guessing.
@@ -43,6 +46,8 @@ partial def valOfJson : Json → Except String Val
       pure (.dict ys)
     else if let .ok (.arr #[.num c, .str n]) := j.getObjVal? "e" then
       pure (.enum c.mantissa.toNat n)
+    else if let .ok (.arr #[.num k, .str r]) := j.getObjVal? "o" then
+      pure (.obj k.mantissa.toNat r)
     else .error "bad value object"
 where
   kv : Json → Except String (DKey × Val)
@@ -66,6 +71,7 @@ partial def valToJson : Val → Json
   | .dict kvs => Json.mkObj [("d", .arr (kvs.map fun kv =>
       Json.arr #[(match kv.1 with | .str s => Json.str s | .int i => .num (JsonNumber.fromInt i)), valToJson kv.2]).toArray)]
   | .enum c n => Json.mkObj [("e", .arr #[.num (JsonNumber.fromNat c), .str n])]
+  | .obj k r => Json.mkObj [("o", .arr #[.num (JsonNumber.fromNat k), .str r])]
 
 def litOfJson : Json → Except String Lit
   | .str s => .ok (.str s)
@@ -98,6 +104,10 @@ partial def tyOfJson : Json → Except String Ty
     else if let .ok (.arr xs) := j.getObjVal? "lit" then
       let ls ← xs.toList.mapM litOfJson
       pure (.literal ls)
+    else if let .ok (.arr #[.str b, .num k]) := j.getObjVal? "rn" then
+      pure (.rnum (if b == "int" then .int else if b == "float" then .float else .str) k.mantissa.toNat)
+    else if let .ok (.num k) := j.getObjVal? "reg" then
+      pure (.reg k.mantissa.toNat)
     else if let .ok (.arr #[.num c, .arr ns]) := j.getObjVal? "e" then
       let names := ns.toList.filterMap fun | .str s => some s | _ => none
       pure (.enum c.mantissa.toNat names)
@@ -111,6 +121,8 @@ structure Tables where
   any : List (String × Option Val) := []
   bigflt : List (Int × Option String) := []
   intof : List (String × Option Int) := []
+  -- keyed tables for the registered / restricted leaves: key = "<tag>|<compressed JSON of the value>"
+  keyed : List (String × Option Val) := []
 
 def loadEntry (j : Json) : Except String (String × Option Val) :=
   match j with
@@ -134,13 +146,34 @@ def tablesOfJson (j : Json) : Except String Tables := do
     | .arr #[.str s, .num i] => some (s, some i.mantissa)
     | .arr #[.str s, .null] => some (s, none)
     | _ => none
-  pure { yaml, any, bigflt, intof }
+  let keyedOf (name : String) : Except String (List (String × Option Val)) :=
+    (arr name).mapM fun e => match e with
+      | .arr #[.str tag, v, r] => do
+        let v' ← valOfJson v
+        let r' ← (match r with | .null => pure none | r => (valOfJson r).map some)
+        pure (name ++ "|" ++ tag ++ "|" ++ (valToJson v').compress, r')
+      | _ => .error "bad keyed oracle entry"
+  let k1 ← keyedOf "numstr"
+  let k2 ← keyedOf "rnumok"
+  let k3 ← keyedOf "baseof"
+  let k4 ← keyedOf "regdeser"
+  let k5 ← keyedOf "regser"
+  pure { yaml, any, bigflt, intof, keyed := k1 ++ k2 ++ k3 ++ k4 ++ k5 }
+
+def rbaseTag : RBase → String | .int => "int" | .float => "float" | .str => "str"
 
 def Tables.oracle (T : Tables) : Oracle where
   yaml s := match T.yaml.lookup s with | some r => r | none => none
   loadAny s := match T.any.lookup s with | some r => r | none => none
   bigFlt i := match T.bigflt.lookup i with | some r => r | none => none
   intOf s := match T.intof.lookup s with | some r => r | none => none
+  numStr b s := (T.keyed.lookup ("numstr|" ++ rbaseTag b ++ "|" ++ (Json.str s).compress)).join
+  rnumOk k v := match (T.keyed.lookup ("rnumok|" ++ toString k ++ "|" ++ (valToJson v).compress)).join with
+    | some (.bool true) => true
+    | _ => false
+  baseOf b v := (T.keyed.lookup ("baseof|" ++ rbaseTag b ++ "|" ++ (valToJson v).compress)).join
+  regDeser k v := (T.keyed.lookup ("regdeser|" ++ toString k ++ "|" ++ (valToJson v).compress)).join
+  regSer k v := (T.keyed.lookup ("regser|" ++ toString k ++ "|" ++ (valToJson v).compress)).join
 
 /-- strings (values and dict keys) occurring in a value -/
 partial def stringsOf : Val → List String
